@@ -94,6 +94,7 @@ def solve_job_shop(
     no_improve = 0
     max_no_improve = 100
 
+    iteration = 0
     for iteration in range(1, max_iter + 1):
         # Try random swap on random machine
         improved = False
